@@ -1411,7 +1411,46 @@ def rule_R24_inline(unit, rel, text, ctx):
             hbm = hmask[it.body_start + 1:it.end - 1]
             code = ''.join(c if hbm[k] else ' ' for k, c in enumerate(hbody))
             if re.search(r'\breturn\b', code):
-                raise Unsupported('R24: helper %s uses return' % name)
+                # early exits of the shape `if C { return V; } REST` at the top level of the helper are the expression
+                # `if C { V } else { REST }` (definition of `return` in tail position of the else branch)
+                for _k in range(6):
+                    hbm = code_mask(hbody)
+                    m_ = None
+                    depth_ = 0
+                    for mm_ in re.finditer(r'\bif\b', hbody):
+                        if not hbm[mm_.start()]:
+                            continue
+                        if sum(1 for q, c_ in enumerate(hbody[:mm_.start()]) if hbm[q] and c_ in '{([') != sum(1 for q, c_ in enumerate(hbody[:mm_.start()]) if hbm[q] and c_ in '})]'):
+                            continue
+                        ob_ = None
+                        dp_ = 0
+                        for q in range(mm_.end(), len(hbody)):
+                            if not hbm[q]:
+                                continue
+                            if hbody[q] in '([':
+                                dp_ += 1
+                            elif hbody[q] in ')]':
+                                dp_ -= 1
+                            elif hbody[q] == '{' and dp_ == 0:
+                                ob_ = q
+                                break
+                        if ob_ is None:
+                            continue
+                        cb_ = match_brace(hbody, hbm, ob_)
+                        inner_ = ''.join(c_ if hbm[ob_ + 1 + q] else ' ' for q, c_ in enumerate(hbody[ob_ + 1:cb_])).strip()
+                        r_ = re.match(r'^return\b\s*(.*?);?$', inner_, re.S)
+                        if r_ and not re.match(r'\s*else\b', hbody[cb_ + 1:]) and ';' not in r_.group(1) and 'return' not in r_.group(1):
+                            m_ = (mm_.start(), ob_, cb_, r_.group(1).strip())
+                            break
+                    if m_ is None:
+                        break
+                    st_, ob_, cb_, val_ = m_
+                    hbody = hbody[:ob_] + '{ ' + (val_ or '()') + ' } else {' + hbody[cb_ + 1:] + '\n}'
+                hbm = code_mask(hbody)
+                code = ''.join(c if hbm[k] else ' ' for k, c in enumerate(hbody))
+                if re.search(r'\breturn\b', code):
+                    raise Unsupported('R24: helper %s uses return' % name)
+                unit.rule_log.append({'rule': 'R24', 'before': 'early `if C { return V; }` of helper %s' % name, 'after': '`if C { V } else { rest }`', 'where': rel})
             if re.search(r'(?<![\w])%s\s*\(' % re.escape(name), code):
                 raise Unsupported('R24: helper %s is recursive' % name)
             op = hsrc.index('(', re.compile(r'\bfn\s+%s\b' % re.escape(name)).search(hsrc, it.start).end())
